@@ -88,6 +88,9 @@ func c01Check(ctx *Ctx, idx int, cs coreCase) {
 	shadow := rp != nil && planHasShadowedStitchPath(rp.RootSteps)
 	fail := func(mode, detail string, impl, model interface{}) {
 		cls := classify(of, df, shadow, mode)
+		if cs.Pinned {
+			cls = "" // recorded as passing: not an instance of any open finding
+		}
 		if cls != "" {
 			pinWitness("C01", cls, full)
 			ctx.Rep.Count("known:" + cls + " [" + mode + "]") // how often each open finding was met, per failure mode
@@ -350,6 +353,41 @@ func namedOperation(q, kind, name string) string {
 	return ""
 }
 
+// genC01UnderscorePaths: directed stream — two stitch paths whose response keys contain
+// underscores and read the same once joined with "_" ([a_b, c] and [a, b_c]); any bookkeeping keyed
+// by a joined path must keep them apart.
+func genC01UnderscorePaths(r *hx.Rand) (coreCase, bool) {
+	base := func(t string) string { return strings.Trim(t, "[]!") }
+	for try := 0; try < 40; try++ {
+		seed := r.U64() % 1000000
+		cf, err := buildCoreFed(seed, false, false)
+		if err != nil {
+			continue
+		}
+		sp := cf.F.Spec
+		for _, q := range sp.Query {
+			T := sp.Type(base(q.Type))
+			if T == nil || !T.Node || len(q.Args) > 0 {
+				continue
+			}
+			for _, g := range T.Fields {
+				U := sp.Type(base(g.Type))
+				if U == nil || !U.Node || len(g.Args) > 0 {
+					continue
+				}
+				for _, lf := range U.Fields {
+					if lf.Name == "id" || len(lf.Args) > 0 || sp.Type(base(lf.Type)) != nil || sp.Abstract(base(lf.Type)) != nil || lf.Owner == g.Owner {
+						continue
+					}
+					query := fmt.Sprintf("{ a_b: %s { c: %s { %s } } a: %s { b_c: %s { %s } } }", q.Name, g.Name, lf.Name, q.Name, g.Name, lf.Name)
+					return coreCase{FedSeed: seed, Query: query, Kind: "query", Features: []string{"alias", "directed:underscore-paths"}}, true
+				}
+			}
+		}
+	}
+	return coreCase{}, false
+}
+
 func runC01(ctx *Ctx) error {
 	ctx.Rep.Rule = "case = (generated federation of 1..3 services with an entity graph, valid client operation, variables) through the real NewGateway+Handler over in-process fake services; " +
 		"oracle = single-server evaluation over the merged schema and the union data (modulo empty-object pruning); correspondence = plan steps, scrub table, sub-requests and data vs the Lean model; " +
@@ -374,6 +412,20 @@ func runC01(ctx *Ctx) error {
 			continue
 		}
 		c01Check(ctx, 100+k, cs)
+	}
+	for k, cs := range spreadInterfaceCases() {
+		ctx.Rep.Count("stream:interface-spread (pinned)")
+		c01Check(ctx, 60000+k, cs)
+	}
+	nu := 8
+	if ctx.Thorough() {
+		nu = 60
+	}
+	for k := 0; k < nu; k++ {
+		if cs, ok := genC01UnderscorePaths(ctx.Rand.Fork()); ok {
+			ctx.Rep.Count("stream:underscore-paths")
+			c01Check(ctx, 50000+k, cs)
+		}
 	}
 	// one stream per feature outside the safe profile: safe + exactly that feature. A failure must
 	// fall in a documented class (input predicate ∧ failure mode); anything else is a violation.
